@@ -99,6 +99,9 @@ def run_roundtrip(W, cfg):
     fin = f.copy()
     g = lt.fourier.idft2(G, alpha, unitary=cfg['unitary'], **kw)
     W.ob('idft2(dft2(f))', g, fin)
+    if cfg['out']:
+        W.ob_true('idft2 returns its out buffer', W.same(g, kw['out']))
+        W.ob('the out buffer holds the inverse', kw['out'], fin)
     if cfg['unitary']:
         # energy: sum |idft2(H)|^2 == sum |H|^2 for arbitrary H
         H = W.complexes('h', (m, n))
